@@ -44,7 +44,9 @@ func (srv *Srv) NewConn(c net.Conn) {
 }
 
 func (conn *Conn) close() {
+	verifPoint("close.enter", conn)
 	conn.done <- true
+	verifPoint("close.stopped", conn)
 	conn.Srv.Lock()
 	delete(conn.Srv.conns, conn)
 	conn.Srv.Unlock()
@@ -62,6 +64,7 @@ func (conn *Conn) close() {
 			op.FidDestroy(fid)
 		}
 	}
+	verifPoint("close.exit", conn)
 }
 
 func (conn *Conn) recv() {
@@ -78,6 +81,7 @@ func (conn *Conn) recv() {
 		}
 
 		n, err = conn.conn.Read(buf[pos:])
+		verifPoint("recv.read", conn)
 		if err != nil || n == 0 {
 			conn.close()
 			return
@@ -146,6 +150,7 @@ func (conn *Conn) recv() {
 				req.next.prev = req
 			}
 			conn.Unlock()
+			verifPoint("recv.dispatch", req)
 			if process {
 				// Tversion may change some attributes of the
 				// connection, so we block on it. Otherwise,
@@ -172,6 +177,7 @@ func (conn *Conn) send() {
 			return
 
 		case req := <-conn.reqout:
+			verifPoint("send.dequeued", req)
 			SetTag(req.Rc, req.Tc.Tag)
 			conn.Lock()
 			conn.rsz += uint64(req.Rc.Size)
@@ -200,11 +206,13 @@ func (conn *Conn) send() {
 				buf = buf[n:]
 			}
 
+			verifPoint("send.written", req)
 			select {
 			case conn.rchan <- req.Rc:
 				break
 			default:
 			}
+			verifPoint("send.recycled", req)
 		}
 	}
 }
